@@ -487,6 +487,25 @@ func Run(r *fw.Run) {
 		}
 	})
 	targetSpellings(r, "")
+	// resources: a valid archive with more entries than the process may have descriptors open (sequential:
+	// the limit is process wide); extraction must not need a descriptor per entry
+	{
+		var es []ent
+		for i := 0; i < 600; i++ {
+			es = append(es, mk(prefixes[0]+fmt.Sprintf("d%d/f%04d.go", i%7, i)))
+		}
+		var msg string
+		ok := fw.WithFDLimit(160, func() { msg, _ = one(scratch, goodMod, goodVers, es) })
+		r.Bounds["descriptor_limit"] = "600 entries with at most 160 open descriptors"
+		r.States.Add(1)
+		r.Execs.Add(2)
+		if !ok {
+			r.Note("descriptor limit could not be lowered; that phase did not run")
+		} else if msg != "" {
+			c := caseT{ModPath: goodMod, Version: goodVers, Entries: []entryT{{Name: strconv.QuoteToASCII("fd-limit:600"), Size: "honest"}}}
+			r.Violation("fd-limit", "600 valid entries with at most 160 open descriptors: "+msg, c)
+		}
+	}
 	r.Sample(caseT{ModPath: goodMod, Version: goodVers, Entries: []entryT{{Name: strconv.QuoteToASCII(prefixes[0] + "go.mod"), Size: "honest"}, {Name: strconv.QuoteToASCII(prefixes[0] + "../../x"), Size: "honest"}}})
 }
 
@@ -582,6 +601,18 @@ func Replay(r *fw.Run, raw json.RawMessage) {
 		return
 	}
 	if len(c.Entries) == 1 {
+		if n, _ := strconv.Unquote(c.Entries[0].Name); strings.HasPrefix(n, "fd-limit:") {
+			var es []ent
+			for i := 0; i < 600; i++ {
+				es = append(es, ent{name: prefixes[0] + fmt.Sprintf("d%d/f%04d.go", i%7, i), content: contentOf(fmt.Sprintf("d%d/f%04d.go", i%7, i)), size: "honest"})
+			}
+			var msg string
+			fw.WithFDLimit(160, func() { msg, _ = one(r.Scratch(), goodMod, goodVers, es) })
+			if msg != "" {
+				r.Violation("fd-limit", msg, c)
+			}
+			return
+		}
 		if n, _ := strconv.Unquote(c.Entries[0].Name); strings.HasPrefix(n, "target-spelling:") {
 			r.Sample(c)
 			targetSpellings(r, strings.TrimPrefix(n, "target-spelling:"))
